@@ -79,8 +79,13 @@ func NewCompiler(
 		symbolTable = NewSymbolTable()
 	}
 
-	// add builtin functions to the symbol table
+	// add builtin functions to the symbol table (a symbol the caller already
+	// defined under the same name, e.g. a script variable, takes precedence)
 	for idx, fn := range builtinFuncs {
+		if sym, _, ok := symbolTable.Resolve(fn.Name, false); ok &&
+			sym.Scope != ScopeBuiltin {
+			continue
+		}
 		symbolTable.DefineBuiltin(idx, fn.Name)
 	}
 
